@@ -102,3 +102,56 @@ def layout_crc9(total_bits: int) -> List[int]:
     """code word = data field (total-16 bits) | DBSN (7) | CRC-9 MSB..LSB; wire = DBSN | CRC-9 LSB-first | data."""
     d = total_bits - 16
     return [16 + i for i in range(d)] + list(range(7)) + [15 - k for k in range(9)]
+
+
+# ------------------------------------------------------------------------------------------ mask / data-type confusion
+
+# TS 102 361-1 B.3.12 "Data Type CRC Mask" (16-bit and 9-bit rows; the 24-bit RS(12,9) rows belong to C11) plus the
+# pseudo-mask 0 ("no mask").  Used as a *generator aid* only: every error pattern derived from them is a non-zero burst
+# no longer than the check field, i.e. inside the guaranteed detection set whatever the table says.
+STANDARD_MASKS_16 = {"pi_header": 0x6969, "csbk": 0xA5A5, "mbc_header": 0xAAAA, "mbc_continuation": 0xFFFF, "data_header": 0xCCCC, "usbd": 0x3333, "none": 0x0000}
+STANDARD_MASKS_9 = {"r12": 0x0F0, "r34": 0x1FF, "r1": 0x10F, "none": 0x000}
+STANDARD_MASKS_8 = {"none": 0x00, "inverted": 0xFF}  # CRC-8 of the short LC carries no mask; only inversion confusion exists
+
+
+def confusion_syndromes(masks: Dict[str, int]) -> Dict[int, str]:
+    """{a ^ b: 'a|b'} over all pairs of distinct masks (a ^ b is symmetric, so ordered pairs collapse)."""
+    out: Dict[int, str] = {}
+    names = sorted(masks)
+    for i, a in enumerate(names):
+        for b in names[i + 1 :]:
+            s = masks[a] ^ masks[b]
+            if s and s not in out:
+                out[s] = f"{a}|{b}"
+    return out
+
+
+def syndrome(code_positions: List[int], n: int, g: int) -> int:
+    """e(x) mod g for the error polynomial with ones at the given code-word positions (0 = highest power)."""
+    e = 0
+    for p in code_positions:
+        e |= 1 << (n - 1 - p)
+    return gf2.polymod(e, g)
+
+
+def bursts_with_syndrome(g: int, n: int, syn: int) -> List[List[int]]:
+    """Every error burst of length <= deg g inside an n-bit code word whose syndrome is exactly ``syn`` (non-zero), as
+    lists of code-word positions.  For every lowest exponent k there is exactly one polynomial B of degree < w with
+    B(x) x^k = syn (mod g), namely syn * x^-k; it is kept when it fits into the word.  The first entry (k = 0) is the
+    check-field-only pattern.  A received word c ^ e passes a check that uses mask b instead of the transmitter's a
+    exactly when syndrome(e) == a ^ b."""
+    w = gf2.deg(g)
+    assert 0 < syn < (1 << w)
+    out, seen = [], set()
+    b = syn
+    for k in range(n):
+        if k + gf2.deg(b) <= n - 1:
+            pos = tuple(sorted(n - 1 - (k + j) for j in range(w) if (b >> j) & 1))
+            if pos not in seen:
+                seen.add(pos)
+                out.append(list(pos))
+        # b := b * x^-1 mod g
+        if b & 1:
+            b ^= g
+        b >>= 1
+    return out
